@@ -133,7 +133,11 @@ class Method(object):
                 m.fail('nested function')
 
             visit_Lambda = visit_FunctionDef
-            visit_GeneratorExp = visit_SetComp = visit_DictComp = visit_ListComp = visit_FunctionDef
+
+            def visit_ListComp(s, n):
+                m.fail('comprehension / generator expression', n)
+
+            visit_GeneratorExp = visit_SetComp = visit_DictComp = visit_ListComp
 
             def visit_NamedExpr(s, n):
                 m.fail('walrus')
